@@ -539,6 +539,17 @@ fn bam_roundtrip(tier: &str) -> Result<String, String> {
 // -> cram::io::Reader -> RecordBuf must give back the records (bases compared case-insensitively); an independent walk
 // over the container headers checks the counters; cram::fs::index + Reader::query must return exactly what a scan keeps.
 // Records WITHOUT quality scores are left out (known finding F37).  Never counted as proved.
+/// every CRAI entry names a container that starts at that offset, one of ITS landmarks, and the size of the slice at that landmark
+fn crai_entries_match(data: &[u8], index: &[noodles_cram::crai::Record]) -> Result<(), String> {
+    let conts = crate::truncation::cram_containers(data).ok_or("the independent container walk fails on the writer's output")?;
+    for (k, e) in index.iter().enumerate() {
+        let c = conts.iter().find(|c| c.0 as u64 == e.offset()).ok_or_else(|| format!("index entry {k} names offset {}, where no container starts", e.offset()))?;
+        let li = c.3.iter().position(|&l| l as u64 == e.landmark()).ok_or_else(|| format!("index entry {k} names landmark {}, the container at {} has landmarks {:?}", e.landmark(), c.0, c.3))?;
+        let size = c.3.get(li + 1).copied().unwrap_or(c.2) - c.3[li];
+        if e.slice_length() != size as u64 { return Err(format!("index entry {k} declares a slice of {} bytes at landmark {}, the container's landmarks give {size}", e.slice_length(), e.landmark())); }
+    }
+    Ok(())
+}
 fn cram_roundtrip(tier: &str) -> Result<String, String> {
     use noodles_sam as sam;
     use sam::alignment::io::Write as _;
@@ -677,17 +688,23 @@ fn cram_roundtrip(tier: &str) -> Result<String, String> {
             Ok(())
         }));
         match r { Err(_) => { fails.entry("walk panic".into()).or_insert_with(|| "cram containers: walking the container headers PANICS".into()); } Ok(Err(e)) => { fails.entry(format!("walk {}", &e[..e.len().min(30)])).or_insert_with(|| format!("cram containers: {e}")); } Ok(Ok(())) => {} }
-        // index + query vs scan
+        // index + query vs scan: the 3-container file, and a 2-container file [one reference | unplaced tail] (an index whose LAST entries are the unplaced ones)
+        let tail_only: Vec<sam::alignment::RecordBuf> = big_recs.iter().filter(|r| r.reference_sequence_id() != Some(1)).cloned().collect();
+        let tail_data = std::panic::catch_unwind(std::panic::AssertUnwindSafe(|| write(&tail_only, true, None).ok())).ok().flatten();
+        for (fname, data, frecs) in [("21080-record file", Some(data), &big_recs), ("one reference + unplaced tail", tail_data.as_ref(), &tail_only)] {
+        let Some(data) = data else { fails.entry(format!("no file {fname}")).or_insert_with(|| format!("cram index+query: the writer fails on the {fname}")); continue; };
         let path = std::env::temp_dir().join(format!("verif-native-{}.cram", std::process::id()));
         let r = std::panic::catch_unwind(std::panic::AssertUnwindSafe(|| -> Result<u64, String> {
             std::fs::write(&path, data).map_err(|e| format!("tmp file: {e}"))?;
             let index = noodles_cram::fs::index(&path).map_err(|e| format!("cram::fs::index fails ({e})"))?;
-            // every index entry names a container offset at which a container starts
+            // every index entry names a container that starts at that offset, one of ITS landmarks, and the size of the slice at that landmark
+            // (independent walk of the container headers)
+            crai_entries_match(data, &index)?;
             let mut q = 0u64;
             for region in ["sq0:1-30", "sq0:26-26", "sq0:1000-1010", "sq0:255976-260000", "sq0", "sq1:1-1", "sq1:5000-5100", "sq1", "sq0:260000-260000"] {
                 let region: noodles_core::Region = region.parse().map_err(|e| format!("region: {e}"))?;
                 let rid = header.reference_sequences().get_index_of(region.name()).unwrap();
-                let expected: Vec<String> = big_recs.iter().filter(|r| r.reference_sequence_id() == Some(rid) && !r.flags().is_unmapped() && match (r.alignment_start(), r.alignment_end()) { (Some(s), Some(e)) => region.interval().intersects((s..=e).into()), _ => false }).map(|r| format!("{:?}@{:?}", r.name().map(|n| n.to_string()), r.alignment_start())).collect();
+                let expected: Vec<String> = frecs.iter().filter(|r| r.reference_sequence_id() == Some(rid) && !r.flags().is_unmapped() && match (r.alignment_start(), r.alignment_end()) { (Some(s), Some(e)) => region.interval().intersects((s..=e).into()), _ => false }).map(|r| format!("{:?}@{:?}", r.name().map(|n| n.to_string()), r.alignment_start())).collect();
                 let mut rd = noodles_cram::io::reader::Builder::default().set_reference_sequence_repository(repo.clone()).build_from_path(&path).map_err(|e| format!("open: {e}"))?;
                 let h = rd.read_header().map_err(|e| format!("read_header: {e}"))?;
                 let got: Vec<String> = rd.query(&h, &index, &region).map_err(|e| format!("query: {e}"))?.records().map(|r| r.map(|r| format!("{:?}@{:?}", r.name().map(|n| n.to_string()), r.alignment_start()))).collect::<Result<_, _>>().map_err(|e| format!("query record: {e}"))?;
@@ -697,7 +714,8 @@ fn cram_roundtrip(tier: &str) -> Result<String, String> {
             Ok(q)
         }));
         let _ = std::fs::remove_file(&path);
-        match r { Err(_) => { fails.entry("query panic".into()).or_insert_with(|| "cram index+query: PANICS".into()); } Ok(Err(e)) => { fails.entry(format!("query {}", &e[..e.len().min(24)])).or_insert_with(|| format!("cram index+query: {e}")); } Ok(Ok(_)) => {} }
+        match r { Err(_) => { fails.entry(format!("query panic {fname}")).or_insert_with(|| format!("cram index+query [{fname}]: PANICS")); } Ok(Err(e)) => { fails.entry(format!("query {fname} {}", &e[..e.len().min(24)])).or_insert_with(|| if fname.starts_with("21080") { format!("cram index+query: {e}") } else { format!("cram index+query [{fname}]: {e}") }); } Ok(Ok(_)) => {} }
+        }
     } else { fails.entry("no default file".into()).or_insert_with(|| "cram round trip: the default configuration did not produce a file for the container/index checks".into()); }
     // ---- a multi-reference slice that cram::fs::index can decode without a reference (deletion-only reads; see F8): one CRAI entry
     // per reference with the true span, and queries through it ----
@@ -714,6 +732,7 @@ fn cram_roundtrip(tier: &str) -> Result<String, String> {
             if back.len() != recs.len() { return Err(format!("{} records read back, {} written", back.len(), recs.len())); }
             std::fs::write(&path, &data).map_err(|e| format!("tmp file: {e}"))?;
             let index = noodles_cram::fs::index(&path).map_err(|e| format!("cram::fs::index fails ({e})"))?;
+            crai_entries_match(&data, &index)?;
             // expected entries: one per reference present (and one for the unplaced reads), with the span of its records
             for (rid, name) in [(0usize, "sq0"), (1, "sq1")] {
                 let (mut lo, mut hi) = (usize::MAX, 0usize);
@@ -908,6 +927,28 @@ fn index_query(_tier: &str) -> Result<String, String> {
     let _ = std::fs::remove_dir_all(&dir);
     for (k, v) in &mism { let mut h: u64 = 0xcbf29ce484222325; for b in v.join("|").bytes() { h ^= b as u64; h = h.wrapping_mul(0x100000001b3); }
         fails.insert(format!("m {k}"), format!("index query [{k} in {} region(s), digest {:08x}; first: {}", v.len(), h as u32, &v[0][..v[0].len().min(160)])); }
+    // ---- optimize_chunks / merge_chunks (C17 sentence 1, second half), exhaustively on small lists — ALSO lists no noodles indexer produces
+    // (nested and overlapping chunks, as foreign indexes hold): every unit [v, v+1) of the file covered by a chunk that ends after min_offset
+    // stays covered, nothing uncovered becomes covered, and the result is sorted and pairwise disjoint ----
+    {
+        use csi::binning_index::{index::reference_sequence::bin::Chunk, optimize_chunks};
+        let vp = |n: u64| noodles_bgzf::VirtualPosition::from(n);
+        let all: Vec<(u64, u64)> = (0..6u64).flat_map(|a| (a + 1..=6).map(move |b| (a, b))).collect();
+        let mut lists: Vec<Vec<(u64, u64)>> = vec![vec![]];
+        for len in 1..=3usize { let mut idx = vec![0usize; len]; loop { lists.push(idx.iter().map(|&i| all[i]).collect()); let mut k = 0; loop { idx[k] += 1; if idx[k] < all.len() { break; } idx[k] = 0; k += 1; if k == len { break; } } if k == len { break; } } }
+        let mut bad: Option<String> = None; let mut n_cases = 0u64;
+        'outer: for list in &lists { let chunks: Vec<Chunk> = list.iter().map(|&(a, b)| Chunk::new(vp(a), vp(b))).collect();
+            for mo in 0..=6u64 { n_cases += 1;
+                let out = match std::panic::catch_unwind(|| optimize_chunks(&chunks, vp(mo))) { Ok(o) => o, Err(_) => { bad = Some(format!("PANICS on {list:?} with min_offset {mo}")); break 'outer; } };
+                let out: Vec<(u64, u64)> = out.iter().map(|c| (u64::from(c.start()), u64::from(c.end()))).collect();
+                for v in 0..6u64 { let need = list.iter().any(|&(a, b)| b > mo && a <= v && v < b); let may = list.iter().any(|&(a, b)| a <= v && v < b); let has = out.iter().any(|&(a, b)| a <= v && v < b);
+                    if need && !has { bad = Some(format!("chunks {list:?} with min_offset {mo} give {out:?}: [{v}, {}) was covered by a retained chunk and is not covered any more", v + 1)); break 'outer; }
+                    if has && !may { bad = Some(format!("chunks {list:?} with min_offset {mo} give {out:?}: [{v}, {}) is covered by no input chunk", v + 1)); break 'outer; } }
+                if out.windows(2).any(|w| w[0].1 >= w[1].0) || out.iter().any(|&(a, b)| a >= b) { bad = Some(format!("chunks {list:?} with min_offset {mo} give {out:?}: not sorted and pairwise disjoint")); break 'outer; }
+            } }
+        queries += n_cases;
+        if let Some(b) = bad { fails.entry("optimize_chunks".into()).or_insert_with(|| format!("optimize_chunks: {b}")); }
+    }
     if queries < 200 && fails.is_empty() { return Err(format!("UNDECIDED: only {queries} queries ran")); }
     if fails.is_empty() { Ok(format!("\"queries\":{queries},\"features_per_file\":{}", feats.len() + 300)) }
     else { Err(format!("FAILURES\n{}", fails.values().cloned().collect::<Vec<_>>().join("\n"))) }
